@@ -576,7 +576,7 @@ func (s *State) evalBuiltin(node *ast.Builtin) object.Object {
 }
 
 func (s *State) evalIndexRangeExpression(left object.Object, leftIdx, rightIdx ast.Node) object.Object {
-	leftIndex := s.Eval(leftIdx)
+	leftIndex := object.CopyRegister(s.Eval(leftIdx)) // a[n:(n=4)]: the left bound is the value n had.
 	nilRight := (rightIdx == nil)
 	var rightIndex object.Object
 	if nilRight {
